@@ -74,7 +74,56 @@ fn b01(v: &str) -> bool {
     v == "1"
 }
 
+/// Some styles get their number format not as a fresh object but as one READ FROM ANOTHER WORKBOOK (a scratch workbook
+/// with k other custom formats before it, saved and reloaded), so that it carries a real numFmt id (176 + k) that may
+/// already belong to a different code in the workbook it is then given to.  Which styles: decided by a hash of the
+/// format code, so that every use of one code yields the same object (the whole-style look-up of set_style compares
+/// objects).  The model is oblivious: it is the same style.
 pub fn build_style(enc: &str) -> Style {
+    let mut s = build_style_fresh(enc);
+    let nf = match s.get_numbering_format() {
+        Some(nf) if *nf.get_number_format_id() >= 164 => nf.clone(),
+        _ => return s,
+    };
+    // keyed on the format CODE (two encodings of one style must yield equal objects)
+    let h = nf.get_format_code().bytes().fold(0xcbf29ce484222325u64, |h, b| (h ^ b as u64).wrapping_mul(0x100000001b3));
+    if h % 3 != 0 {
+        return s;
+    }
+    thread_local! {
+        static VIA: std::cell::RefCell<BTreeMap<String, NumberingFormat>> = std::cell::RefCell::new(BTreeMap::new());
+    }
+    let key = format!("{}|{}", (h / 3) % 4, nf.get_format_code());
+    let cached = VIA.with(|m| m.borrow().get(&key).cloned());
+    let nf2 = match cached {
+        Some(x) => x,
+        None => {
+            let mut scratch = umya_spreadsheet::new_file();
+            for i in 0..((h / 3) % 4) as u32 {
+                let mut d = Style::default();
+                d.get_numbering_format_mut().set_format_code(format!("0.0\"v{}\"", i));
+                scratch.get_sheet_mut(&0).unwrap().set_style((1u32, 1 + i), d);
+            }
+            let mut t = Style::default();
+            t.set_numbering_format(nf.clone());
+            scratch.get_sheet_mut(&0).unwrap().set_style((2u32, 1u32), t);
+            let bytes = save(&scratch).expect("scratch save");
+            let back = umya_spreadsheet::reader::xlsx::read_reader(Cursor::new(bytes), true).expect("scratch reload");
+            let x = back.get_sheet(&0).unwrap().get_style((2u32, 1u32)).get_numbering_format().cloned().unwrap_or(nf);
+            VIA.with(|m| m.borrow_mut().insert(key, x.clone()));
+            x
+        }
+    };
+    VIA_COUNT.with(|c| c.set(c.get() + 1));
+    s.set_numbering_format(nf2);
+    s
+}
+
+thread_local! {
+    pub static VIA_COUNT: std::cell::Cell<u64> = std::cell::Cell::new(0);
+}
+
+fn build_style_fresh(enc: &str) -> Style {
     let mut st = Style::default();
     if enc == "-" {
         return st;
@@ -1451,4 +1500,5 @@ pub fn run(out: &mut Out, tier: Tier, seed: u64, replay: Option<Vec<String>>) {
         }
         out.end(&op, &reply, nt);
     }
+    out.count_n("style.number-format-read-from-another-workbook", VIA_COUNT.with(|c| c.get()));
 }
